@@ -1,6 +1,6 @@
 (* C15 — property theorems only.  Bodies live in Proofs.v. *)
 From Coq Require Import PArith ZArith List Bool.
-From EsVerif.C15 Require Import Model Spec Proofs Complete Exec ExecProofs.
+From EsVerif.C15 Require Import Model Spec Proofs Complete Alias Exec ExecProofs.
 Import ListNotations.
 
 (* Soundness of the frame checker: if the verified analysis accepts a skeleton for the parameter
@@ -66,6 +66,18 @@ Proof. exact v_dynamic_changed. Qed.
 
 (* (ExecProofs.v_dynamic63_zero_sound states the same for the primitive-integer transport; it is kept out of this
    file because its STATEMENT mentions the primitive type PrimInt63.int, which Print Assumptions lists.) *)
+
+(* Soundness of the ALIAS part of the analysis (what the dynamic correspondence compares with np.shares_memory of
+   the real return value): after a completed execution, a name that refers to the buffer of a parameter has a
+   parameter with that buffer in its computed alias set. *)
+Theorem C15_alias_sound : forall sk ps a',
+  analyze sk (init_amap ps) = Some a' ->
+  forall st st', params_bound ps st -> others_apart ps st ->
+  exec_l sk st st' false ->
+  forall x b, env st' x = Some b ->
+  (exists p, In p ps /\ env st p = Some b) ->
+  exists q, In q ps /\ env st q = Some b /\ In q (lookup a' x).
+Proof. exact alias_sound. Qed.
 
 (* ---- non-vacuity -------------------------------------------------------------------------
    def f(a, inplace):                      parameter a = 1
